@@ -144,6 +144,22 @@ def run(ctx):
                     res.violations.append({"what": "after set_store(..., commit_type=%r) on directories already configured in this process, a keep "
                                                    "writes copy=%s record=%s (expected copy=%s record=%s)" % (ct, has_copy, has_record, want_copy, want_record),
                                            "input": case, "kf": None})
+                # what the earlier settings recorded is still there for the current one: every path that has a redirect record
+                # resolves to its key and loads, whatever the commit type of the store that reads it
+                for cj in range(ci + 1):
+                    if order[cj] == "none":
+                        continue
+                    pj, kj, vj = "/r/p%d" % cj, "rsig%d" % cj, "text %d" % cj
+                    try:
+                        got_k = dict(api._store_var.fetch_paths([pj])).get(pj)
+                        got_v = dds.load(pj)
+                    except BaseException as e:
+                        got_k, got_v = "EXC:" + type(e).__name__, str(e)[:80]
+                    res.evaluations += 1
+                    if got_k != kj or got_v != vj:
+                        res.violations.append({"what": "path %s was committed with commit type %r; under the store configured next with commit type %r it resolves to "
+                                                       "%r / loads as %r (expected %r / %r)" % (pj, order[cj], ct, got_k, got_v, kj, vj), "input": case, "kf": None})
+                        break
         # ---- legacy references ----
         for legacy, v, minimal in [(l_, v_, m_) for (l_, v_) in (("dbfs.string", "texte é"), ("dbfs.bytes", b"\x00raw\xff"), ("dbfs.pickle", {"a": (1, 2)}))
                                    for m_ in (False, True)]:
